@@ -28,7 +28,7 @@ BOUNDARY = (0, 1, 9, 10, 99, 100, 255)
 
 
 def plan(tier, seed):
-    return [{"n": N[tier]} for _ in range(16)]
+    return [{"kind": "suite"}] + [{"n": N[tier]} for _ in range(16)]
 
 
 def gval(rng):
@@ -127,6 +127,11 @@ def check_malformed(text, ctx) -> None:
 
 
 def run(shard, ctx):
+    if shard.get("kind") == "suite":
+        from vf.mon import suite
+
+        suite.run_suite(ctx, "C20")
+        return
     rng = ctx.rng(ID)
     patterns = list(itertools.product((False, True), repeat=4))
     for i in range(shard["n"]):
